@@ -352,7 +352,10 @@ async def daemon_killer(
                         pass
 
     # Terminate all running daemons when the operator exits (and this task is cancelled).
+    # Same glitch as with pausing: the workers can still process some events after this moment,
+    # so keep the operator "paused" from now on -- to stop the daemons right after they spawn.
     finally:
+        await operator_paused.make_toggle(True, name='operator is exiting')
         for memory in list(memories.iter_all_daemon_memories()):
             for daemon in list(memory.running_daemons.values()):
                 await scheduler.spawn(
